@@ -17,6 +17,7 @@
 //!                         Running at the `spawned` point instead of main's first park)
 //!   S4V_POSTOPS=1         extra yields after a send (C18 mode)
 //!   S4V_SOURCES=a,b       basenames of the valid sources in PathId order (thread names)
+//!   S4V_POLICY=main-first|workers-first|workers-reverse   default choice beyond the prefix
 //!   S4V_STEP_LIMIT=n      decisions before the run is declared a livelock (default 20000)
 
 use std::cell::Cell;
@@ -106,6 +107,7 @@ struct State {
     max_q: usize,
     locks: Vec<(&'static str, usize, bool)>,
     step_limit: usize,
+    policy: u8,
 }
 
 static STATE: Mutex<Option<State>> = Mutex::new(None);
@@ -164,6 +166,11 @@ pub fn init_main() {
         max_q: 0,
         locks: vec![],
         step_limit,
+        policy: match std::env::var("S4V_POLICY").as_deref() {
+            Ok("workers-first") => 1,
+            Ok("workers-reverse") => 2,
+            _ => 0,
+        },
     });
     TID.with(|t| t.set(Some(0)));
 }
@@ -344,7 +351,18 @@ impl State {
             self.dump_and_exit("deadlock", 3);
         }
         let pos = self.trace.len();
-        let chosen = if pos < self.choices.len() { self.choices[pos] } else { 0 };
+        let chosen = if pos < self.choices.len() {
+            self.choices[pos]
+        } else {
+            match self.policy {
+                // coordinator first (canonical order)
+                0 => 0,
+                // lowest-numbered worker first, coordinator only when no worker can move
+                1 => en.iter().position(|e| e.0 != 0 && e.0 != SIGTID).unwrap_or(0),
+                // highest-numbered worker first
+                _ => en.iter().rposition(|e| e.0 != 0 && e.0 != SIGTID).unwrap_or(0),
+            }
+        };
         if chosen >= en.len() {
             self.dump_and_exit("bad-choice", 4);
         }
